@@ -199,6 +199,37 @@ CLAIMED = {
         'technique': 'Lean 4 proof over tables regenerated from the source + differential execution in four modes',
         'design_ref': '§5 C18',
     },
+    'C03': {
+        'text': ('Lean theorems: which function `transpose` resolves to for every class is re-checked against the source table; '
+                 'the form model transposeOp swaps input and output structures for every expression (mutual induction over '
+                 'compositions of any length, sums, block containers, wrappers, every leaf class); A.T.T returns the very operand '
+                 'for wrapper classes and symmetric classes return themselves; adjointness lifts from leaves and wrappers to '
+                 'compositions and sums nested to any depth (AdjCore induction, inhabited); and the adjointness of each '
+                 'hand-written transpose is a theorem about its kernel: QU rotation, gather/scatter-add, einsum subscript '
+                 'rewriting, move-axis permutation inverse, Toeplitz self-adjointness, block row/column/diagonal.  The form of '
+                 '.T is compared with the implementation on random expressions and per-class operators; dense(A.T) = dense(A)ᵀ, '
+                 '<Ax,y> = <x,A.T y>, swapped structures and A.T.T are checked on the implementation.'),
+        'note': ('Trusted: Lean kernel + Mathlib + standard axioms; A2 (jax.linear_transpose is the exact adjoint) for the '
+                 'generic TransposeOperator — it enters as part of the hypothesis LeafAdjoint and is re-checked by the '
+                 'dense-matrix oracle. Transposes of the solver-based inverse are excluded, as the property says.'),
+        'technique': 'Lean 4 proof (mutual structural induction; kernel adjoint theorems) + differential correspondence of forms',
+        'design_ref': '§5 C03',
+    },
+    'C04': {
+        'text': ('Lean theorems (Mathlib LinearMap.toMatrix\', whose definition is the generic as_matrix recipe: column j = op '
+                 'applied to basis vector j): op(x) = as_matrix()·flatten(x) for every x, faithfulness, and the formula of every '
+                 'override (identity, scalar, sum, composition, diagonal, ravel/reshape = eye, inverse = matrix inverse); which '
+                 'classes override as_matrix, and with which function, is re-checked against the source table; chains of '
+                 'homogeneous operators are homogeneous.  On the implementation the specialised as_matrix, the generic as_matrix '
+                 'and the column-by-column matrix are compared for every overriding class and composites, together with '
+                 'linearity and op(x) = M·flatten(x) on integer data; the diagonal and Toeplitz overrides are also compared '
+                 'with the model kernels.'),
+        'note': ('Trusted: Lean kernel + Mathlib + standard axioms; the identification of an operator on flattened pytrees '
+                 '(leaves in pytree order, row-major) with a linear map (Fin n → R) → (Fin m → R); per-class linearity is the '
+                 'law `homogeneous` of OpSem plus additivity, checked on the implementation.'),
+        'technique': 'Lean 4 proof (Mathlib linear algebra) + kernel-checked source table + three-way dense comparison on the implementation',
+        'design_ref': '§5 C04',
+    },
     'C05': {
         'text': ('Lean theorems: where out_structure comes from for every class (square family = in_structure, duals, '
                  'composites, stored, abstract evaluation) is re-checked against the source table; the Level-A structure '
